@@ -32,6 +32,31 @@ CHECKS = {
             "astropy.io.fits round trip; pixel tokens are small integers exact in float32; rotation-free headers as in the property.",
             "TLA+ model (MC_Expand) checked by TLC + TLC trace validation (Expand_Trace) of bounded-exhaustive compress/expand executions",
             "4/C15"),
+    "C08": ("model_checking",
+            "Explicit TLA+ state machines: Region.tla (abstract set algebra on deepest-level pixels) and RegionImpl.tla (the coded "
+            "pixeldict / demotion cache / _renorm / union / set-operation algorithms). TLC checks exhaustively (depth 2 fully, depth 3 "
+            "to history length 4-6) that RegionImpl refines Region step by step for every call of a 62-call alphabet (mixed-depth "
+            "operands, raw add_pixels, renorm on/off, interleaved queries, pickle), that identifiers stay valid and no patch is stored "
+            "twice after normalising calls, and that the three pre-fix designs (stale cache, _uniq range, un-normalised area) give "
+            "counterexamples. Spec->code: every history of length K over the alphabet (depths 2,3) plus TLC -simulate histories of "
+            "length 8-10 is executed on the real Region, observed through deep copies after every call and validated by TLC "
+            "(Region_Trace). Code->spec: seeded real-geometry histories (circles, polygons, .mim files, depths 3-12, poles, RA wrap) "
+            "validated in the exact Boolean-algebra quotient (Region_AtomTrace).",
+            "healpy pixel geometry (pix2ang/ang2pix/query_disc/query_polygon) is trusted; add_pixels called with depth <= maxdepth; "
+            "observation by copy.deepcopy does not perturb the object.",
+            "TLA+ refinement check (RegionImpl => Region) with TLC + replay of TLC-generated histories into regions.Region + TLC trace validation",
+            "4/C08"),
+    "C12": ("model_checking",
+            "Region.tla/RegionPreds.tla state what an exported file must contain (MocOK: NUNIQ cells decode exactly to S with order = "
+            "depth; RegOK: polygons are stored pixels covering S). TLC checks that the coded _uniq/write_reg (RegionImpl) satisfy them in "
+            "every reachable state of the bounded refinement model (depths 1-3), and that the pre-fix _uniq gives a counterexample. "
+            "Spec->code: every TLC-emitted history (depths 1-3) extended by each export tail (direct, via MIMAS.mim2fits/mim2reg, after "
+            "demoting queries, after save/load) is run on the real code, files are read back (astropy / polygon-corner matching against "
+            "healpy.boundaries) and TLC validates them (Region_Trace); empty, single-pixel, multi-level and whole-sky regions at NB=48 and "
+            "seeded real regions at depth 3-12 (atom quotient) complete it.",
+            "astropy.io.fits table read-back; healpy.boundaries for the corners of one pixel (0.2 arcsec tolerance = print precision).",
+            "TLA+ model checking with TLC + replay of TLC-generated histories ending in exports + TLC trace validation of files read back",
+            "4/C12"),
 }
 
 NOT_YET = "check not built yet in this round of construction (planned, see DESIGN.md section 4)"
